@@ -203,12 +203,18 @@ EmptyModel(r) ==
     /\ Len(r.nodes[1].rout) = Len(r.nodes[1].rdir) + 1 /\ FrontOf(r.nodes[1].rout) = r.nodes[1].rdir /\ r.nodes[1].rfind = r.nodes[1].rout
     /\ r.nodes[1].rdir = r.given \/ \E j \in DOMAIN r.denote : r.denote[j].b = r.nodes[1].rdir /\ r.denote[j].ok
 
+(* A record of a run with `enable_stropping: false` carries lax = TRUE.  What the tool owes to the SPELLING of namespace folders   *)
+(* there is stated nowhere (the model strops them, the type paths are not stropped), so the two clauses that read spellings -     *)
+(* tree.path_shape, tree.as_given - are not judged; every other clause is independent of the stropping table and is judged:       *)
+(* a dependant still has to name the path the type is generated to, one file per type, nothing outside, total lookup.             *)
+Lax(r) == "lax" \in DOMAIN r /\ r.lax
+
 (* the clauses in the order that names a rejection (first failed clause) and numbers the bits of the mask *)
 Clauses(r) ==
     << <<"tree.inside_outdir", InsideOutdir(r)>>, <<"tree.type_once", TypeOnce(r)>>, <<"tree.ancestors", Ancestors(r)>>,
-       <<"tree.links", Links(r)>>, <<"tree.path_total", PathTotal(r)>>, <<"tree.path_shape", PathShape(r)>>,
+       <<"tree.links", Links(r)>>, <<"tree.path_total", PathTotal(r)>>, <<"tree.path_shape", Lax(r) \/ PathShape(r)>>,
        <<"tree.injective", Injective(r)>>, <<"tree.one_file", OneFile(r)>>, <<"tree.ref_eq_gen", RefEqGen(r)>>,
-       <<"tree.as_given", AsGiven(r)>>, <<"tree.support_inside", SupportInside(r)>>, <<"tree.empty_model", TRUE>> >>
+       <<"tree.as_given", Lax(r) \/ AsGiven(r)>>, <<"tree.support_inside", SupportInside(r)>>, <<"tree.empty_model", TRUE>> >>
 
 (* the same list for the empty type set: the clauses about types are vacuous, the model is the single empty namespace *)
 ClausesEmpty(r) ==
